@@ -877,6 +877,9 @@ class C17(Property):
         "frames_step_refines", "frames_run_refines", "frames_run_refines_init",
         "refGuard_of_histGuard", "getitem_visible", "frames_histories_partial", "frames_results_partial",
         "step_read_state", "run_insert_reads", "lazy_is_unobservable", "frameHist_guard",
+        # p1: guard invariance under inserted reads (no method call touches what refGuard looks at)
+        "sharedInit_store", "store_pull", "store_op", "read_step_store", "store_fstep",
+        "refGuard_insert_reads_from", "refGuard_insert_reads", "lazy_is_unobservable_two_guards",
     )]
     extra_proof_modules = ["Proofs.C17Frames", "Proofs.C17FramesWrite", "Proofs.C17FramesInst",
                            "Proofs.C17FramesStep", "Proofs.C17FramesHist"]
@@ -922,8 +925,8 @@ class C17(Property):
                   "model equals the layered reference: composition with c17_histories_partial / c17_results_partial); "
                   "non-vacuity: frameHist (18 commands: owner frame materialised by a write, a sibling handed the same "
                   "Properties object, instance reads before/after, with_properties, detached instance), quirkHist, markedHist.  "
-                  "Still assumed, not proved: lazy_is_unobservable takes the guard of BOTH histories (that inserted reads "
-                  "leave refGuard unchanged is not proved); MI classes mixing descriptors are outside (miGuard), as for model "
+                  "Since round p1 lazy_is_unobservable takes the guard of the history WITHOUT the inserted reads only "
+                  "(read_step_store: a read step leaves classes / ndesc / objs / initial unchanged; refGuard_insert_reads); MI classes mixing descriptors are outside (miGuard), as for model "
                   "A.  The runner still executes the mechanism model next to model A on every case (spec_agrees) "
                   "and its materialised-frame set after every command is compared with the keys of the real Properties.map")
     technique = "Lean 4 model + invariants + refinement to a layered-store specification; differential testing against /repo"
